@@ -2,7 +2,7 @@
    every result is duplicate-free by uid, and nothing is selected that the axes of the steps do not reach from the start set. *)
 From Coq Require Import Lia.
 From AHP Require Import Model.Base Model.Str Model.Attr Model.Dom Model.Search Model.Index Model.Passes Model.XPath
-     Proofs.PassesProofs Proofs.SearchProofs Proofs.XPathProofs.
+     Proofs.PassesProofs Proofs.SearchProofs Proofs.DomProofs Proofs.IndexProofs Proofs.XPathProofs.
 
 Section PathProofs.
   Variable num : Type.
@@ -114,5 +114,27 @@ Section PathProofs.
     unfold XPath.run. intros H. apply run_steps_sound in H as [H1 H2]; [|apply (proj1 (dedup_tags_spec roots))].
     split; [auto|]. intros x Hx. destruct (H2 x Hx) as [t [Ht Hr]]; [intros ->; contradiction|].
     exists t. split; [|auto]. now apply (proj1 (proj2 (dedup_tags_spec roots))).
+  Qed.
+  (* results stay inside the document: whatever is reached from elements of the document is an element of the document
+     (the upward axes look their targets up in the document itself) *)
+  Lemma ancestors_Sub : forall fuel t x, In x (ancestors doc fuel t) -> Sub x doc.
+  Proof.
+    induction fuel as [|k IH]; intros t x H; cbn [ancestors] in H; [contradiction|].
+    destruct (parent_elem doc t) as [p|] eqn:E; [|contradiction].
+    assert (Hp : Sub p doc).
+    { unfold parent_elem in E. destruct (parent (hd_ t)); [|discriminate]. eapply IndexProofs.find_Sub; eauto. }
+    destruct H as [<-|H]; [auto | eauto].
+  Qed.
+  Lemma reach1_Sub t x : Sub t doc -> reach1 t x -> Sub x doc.
+  Proof.
+    intros Ht [->|[H|H]]; [auto| |eapply ancestors_Sub; eauto].
+    eapply IndexProofs.Sub_trans; [apply IndexProofs.desc_Sub; eauto | auto].
+  Qed.
+  Lemma reach_Sub n : forall t x, Sub t doc -> reach n t x -> Sub x doc.
+  Proof. induction n as [|k IH]; intros t x Ht H; inversion H; subst; [auto|]. eapply IH; [|eauto]. eapply reach1_Sub; eauto. Qed.
+  Theorem run_inside sts roots l : run sts roots = XOk l -> Forall (fun t => Sub t doc) roots -> Forall (fun x => Sub x doc) l.
+  Proof.
+    intros H Hr. apply run_sound in H as [_ H]. apply Forall_forall. intros x Hx. destruct (H x Hx) as [t [Ht Hreach]].
+    rewrite Forall_forall in Hr. eapply reach_Sub; eauto.
   Qed.
 End PathProofs.
